@@ -85,7 +85,7 @@ def _leaves(e, env, conds):
                 tail = A.stmt_expr(s)
         return _leaves(tail, env2, conds)
     if k == "If":
-        c = A.unparse(A.strip(e["cond"])).replace(" ", "")
+        c = A.ftxt(A.strip(e["cond"]))
         return _leaves(e["then"], env, conds + [c]) + _leaves(e["else"], env, conds + ["!" + c])
     if k == "Struct":
         f = {x["name"]: S.to_sym(x["e"], env) for x in e["fields"]}
@@ -176,13 +176,13 @@ def r3_piecewise(rule, root=None):
         ifs = list(A.find(fn["body"], "If"))
         hit = None
         for i in ifs:
-            if A.unparse(A.strip(i["cond"])).replace(" ", "") == cond:
+            if A.ftxt(A.strip(i["cond"])) == cond:
                 hit = i
         if hit is None:
             rule.bad("%s|cond" % name, "Grad::%s must select by `%s` (a condition on values only)" % (name, cond), A.where(fn))
             continue
-        th = A.unparse(hit["then"]).replace(" ", "").strip("{}")
-        el = A.unparse(hit["else"]).replace(" ", "").strip("{}")
+        th = A.ftxt(hit["then"]).strip("{}")
+        el = A.ftxt(hit["else"]).strip("{}")
         if th == a and el == b:
             rule.ok("Grad::%s returns %s whole under %s, else %s" % (name, a, cond, b), file=GRAD, line=fn["ln"])
         else:
@@ -190,21 +190,21 @@ def r3_piecewise(rule, root=None):
     fn = ms.get("abs")
     if fn is not None:
         ifs = list(A.find(fn["body"], "If"))
-        if ifs and A.unparse(A.strip(ifs[0]["cond"])).replace(" ", "") == "(self.v<0.0)" and A.unparse(ifs[0]["else"]).replace(" ", "") == "{self}":
+        if ifs and A.ftxt(A.strip(ifs[0]["cond"])) == "(self.v<0.0)" and A.ftxt(ifs[0]["else"]) == "{self}":
             rule.ok("Grad::abs negates everything when v < 0 and is the identity otherwise")
         else:
             rule.bad("abs|branches", "Grad::abs must negate all four lanes exactly when v < 0", A.where(fn))
     for name in ("floor", "ceil", "round"):
         fn = ms.get(name)
         st = list(A.find(fn["body"], "Struct")) if fn else []
-        f = {x["name"]: A.unparse(x["e"]).replace(" ", "") for x in st[0]["fields"]} if st else {}
+        f = {x["name"]: A.ftxt(x["e"]) for x in st[0]["fields"]} if st else {}
         if f == {"v": "self.v.%s()" % name, "dx": "0.0", "dy": "0.0", "dz": "0.0"}:
             rule.ok("Grad::%s has zero derivative" % name)
         else:
             rule.bad("%s|zero" % name, "Grad::%s must be { v: self.v.%s(), dx: 0, dy: 0, dz: 0 }, found %s" % (name, name, f), A.where(fn) if fn else "")
     for name in ("compare", "not", "rand", "mix"):
         fn = ms.get(name)
-        t = A.unparse(fn["body"]).replace(" ", "") if fn else ""
+        t = A.ftxt(fn["body"]) if fn else ""
         if t.endswith(".into()}") and "dx" not in t:
             rule.ok("Grad::%s is a bare value (zero derivative)" % name)
         else:
@@ -215,14 +215,14 @@ def r3_piecewise(rule, root=None):
         ow = f.get("_owner") or {}
         if ow.get("self_ty") == "Grad" and (ow.get("trait") or "") == "From<f32>" and f["name"] == "from":
             st = list(A.find(f["body"], "Struct"))
-            fl = {x["name"]: A.unparse(x["e"]).replace(" ", "") for x in st[0]["fields"]} if st else {}
+            fl = {x["name"]: A.ftxt(x["e"]) for x in st[0]["fields"]} if st else {}
             if fl == {"v": "v", "dx": "0.0", "dy": "0.0", "dz": "0.0"}:
                 rule.ok("Grad::from(f32) is a constant (zero derivative)")
             else:
                 rule.bad("from|zero", "Grad::from(f32) must have zero derivatives, found %s" % fl, A.where(f))
     fn = ms.get("d")
     ms_ = list(A.find(fn["body"], "Match")) if fn else []
-    got = {A.unparse(a["pat"]): A.unparse(a["body"]).replace(" ", "") for a in ms_[0]["arms"]} if ms_ else {}
+    got = {A.unparse(a["pat"]): A.ftxt(a["body"]) for a in ms_[0]["arms"]} if ms_ else {}
     if got.get("0") == "self.dx" and got.get("1") == "self.dy" and got.get("2") == "self.dz":
         rule.ok("Grad::d(0|1|2) = dx|dy|dz")
     else:
@@ -304,7 +304,7 @@ def r4_symbolic_deriv(rule, root=None):
             seen.add(variant)
             key = "%s|%s" % (enum, variant)
             if variant in zero:
-                if A.unparse(A.strip(arm["body"])).replace(" ", "") == "Ok(zero)":
+                if A.ftxt(A.strip(arm["body"])) == "Ok(zero)":
                     rule.ok("deriv(%s) = 0" % variant, file=CTX, line=arm["ln"])
                 else:
                     rule.bad(key, "d/dv of %s must be zero (no Dirac deltas)" % variant, A.where(fn, arm))
@@ -364,7 +364,7 @@ def r4_symbolic_deriv(rule, root=None):
         for v in (unary if enum == "UnaryOpcode" else binary):
             if v not in seen:
                 rule.bad("%s|%s|missing" % (enum, v), "deriv has no arm for %s::%s" % (enum, v), A.where(fn, ms[0]))
-    t = A.unparse(fn["body"]).replace(" ", "")
+    t = A.ftxt(fn["body"])
     if "letz=if(v==u){self.constant(1.0)}else{zero};" in t and "Op::Const(_c)=>{seen.insert(n,zero);stack.push(zero);}" in t:
         rule.ok("deriv of the variable itself is 1, of other inputs and constants 0")
     else:
